@@ -67,16 +67,16 @@ end
 
 /-- the string encoding of a map key: JSON object keys are strings; serde_json prints integer,
     bool-free scalar keys as their decimal text -/
-def keyJson (k : Str) : List Json :=
+def keyJson (k : Str) : List JVal :=
   -- a key `k` can stand for the string `k`, or for the integer it spells
-  [Json.str k] ++ (match (String.ofList k).toInt? with
-    | some i => [Json.int i]
+  [JVal.str k] ++ (match (String.ofList k).toInt? with
+    | some i => [JVal.int i]
     | none => [])
 
 mutual
 /-- `Member D t j`: the JSON value `j` inhabits the (closed) type `t` under declarations `D`.
     Least fixed point, so recursive declarations are fine. -/
-inductive Member (D : Decls) : Ts → Json → Prop where
+inductive Member (D : Decls) : Ts → JVal → Prop where
   | numberInt (i : Int) : Member D .number (.int i)
   | numberFloat (r : Str) : Member D .number (.float r)
   | bigint (i : Int) : Member D .bigint (.int i)
@@ -84,48 +84,48 @@ inductive Member (D : Decls) : Ts → Json → Prop where
   | boolean (b : Bool) : Member D .boolean (.bool b)
   | null : Member D .null .null
   | lit (s : Str) : Member D (.lit s) (.str s)
-  | ref {n : Str} {args : List Ts} {ps : List Str} {body : Ts} {j : Json} :
+  | ref {n : Str} {args : List Ts} {ps : List Str} {body : Ts} {j : JVal} :
       lookupDecl D n = some (ps, body) → Member D (subst (ps.zip args) body) j → Member D (.ref n args) j
-  | array {t : Ts} {js : List Json} : MemberAll D t js → Member D (.array t) (.arr js)
-  | tuple {ts : List Ts} {js : List Json} : MemberZip D ts js → Member D (.tuple ts) (.arr js)
+  | array {t : Ts} {js : List JVal} : MemberAll D t js → Member D (.array t) (.arr js)
+  | tuple {ts : List Ts} {js : List JVal} : MemberZip D ts js → Member D (.tuple ts) (.arr js)
   | neverArray : Member D .neverArray (.arr [])
   | emptyRecord : Member D .emptyRecord (.obj [])
-  | obj {fs : List (TsKey × Ts)} {kvs : List (Str × Json)} :
-      MemberFields D fs kvs → (∀ k ∈ Json.keys kvs, ∃ f ∈ fs, f.1.name = k) → Member D (.obj fs) (.obj kvs)
-  | mapped {k v : Ts} {kvs : List (Str × Json)} : MemberMap D k v kvs → Member D (.mapped k v) (.obj kvs)
-  | union {ts : List Ts} {t : Ts} {j : Json} : t ∈ ts → Member D t j → Member D (.union ts) j
-  | interNil {j : Json} : Member D (.inter []) j
-  | interObj {t : Ts} {ts : List Ts} {kvs kvs₁ kvs₂ : List (Str × Json)} :
+  | obj {fs : List (TsKey × Ts)} {kvs : List (Str × JVal)} :
+      MemberFields D fs kvs → (∀ k ∈ JVal.keys kvs, ∃ f ∈ fs, f.1.name = k) → Member D (.obj fs) (.obj kvs)
+  | mapped {k v : Ts} {kvs : List (Str × JVal)} : MemberMap D k v kvs → Member D (.mapped k v) (.obj kvs)
+  | union {ts : List Ts} {t : Ts} {j : JVal} : t ∈ ts → Member D t j → Member D (.union ts) j
+  | interNil {j : JVal} : Member D (.inter []) j
+  | interObj {t : Ts} {ts : List Ts} {kvs kvs₁ kvs₂ : List (Str × JVal)} :
       -- disjoint merge: the properties split into a part for `t` and a part for the rest
       List.Perm (kvs₁ ++ kvs₂) kvs → Member D t (.obj kvs₁) → Member D (.inter ts) (.obj kvs₂) → ts ≠ [] →
       Member D (.inter (t :: ts)) (.obj kvs)
-  | interOne {t : Ts} {j : Json} : Member D t j → Member D (.inter [t]) j
-  | interVal {t : Ts} {ts : List Ts} {j : Json} : j.isObj = false →
+  | interOne {t : Ts} {j : JVal} : Member D t j → Member D (.inter [t]) j
+  | interVal {t : Ts} {ts : List Ts} {j : JVal} : j.isObj = false →
       Member D t j → Member D (.inter ts) j → Member D (.inter (t :: ts)) j
-  | paren {t : Ts} {j : Json} : Member D t j → Member D (.paren t) j
+  | paren {t : Ts} {j : JVal} : Member D t j → Member D (.paren t) j
 /-- every element of the list inhabits `t` -/
-inductive MemberAll (D : Decls) : Ts → List Json → Prop where
+inductive MemberAll (D : Decls) : Ts → List JVal → Prop where
   | nil {t : Ts} : MemberAll D t []
-  | cons {t : Ts} {j : Json} {js : List Json} : Member D t j → MemberAll D t js → MemberAll D t (j :: js)
+  | cons {t : Ts} {j : JVal} {js : List JVal} : Member D t j → MemberAll D t js → MemberAll D t (j :: js)
 /-- element-wise, same length -/
-inductive MemberZip (D : Decls) : List Ts → List Json → Prop where
+inductive MemberZip (D : Decls) : List Ts → List JVal → Prop where
   | nil : MemberZip D [] []
-  | cons {t : Ts} {ts : List Ts} {j : Json} {js : List Json} :
+  | cons {t : Ts} {ts : List Ts} {j : JVal} {js : List JVal} :
       Member D t j → MemberZip D ts js → MemberZip D (t :: ts) (j :: js)
 /-- every declared property is present with a member value, or absent and optional -/
-inductive MemberFields (D : Decls) : List (TsKey × Ts) → List (Str × Json) → Prop where
-  | nil {kvs : List (Str × Json)} : MemberFields D [] kvs
-  | present {k : TsKey} {t : Ts} {fs : List (TsKey × Ts)} {kvs : List (Str × Json)} {v : Json} :
-      Json.lookup k.name kvs = some v → Member D t v → MemberFields D fs kvs → MemberFields D ((k, t) :: fs) kvs
-  | absent {k : TsKey} {t : Ts} {fs : List (TsKey × Ts)} {kvs : List (Str × Json)} :
-      Json.lookup k.name kvs = none → k.optional = true → MemberFields D fs kvs → MemberFields D ((k, t) :: fs) kvs
+inductive MemberFields (D : Decls) : List (TsKey × Ts) → List (Str × JVal) → Prop where
+  | nil {kvs : List (Str × JVal)} : MemberFields D [] kvs
+  | present {k : TsKey} {t : Ts} {fs : List (TsKey × Ts)} {kvs : List (Str × JVal)} {v : JVal} :
+      JVal.lookup k.name kvs = some v → Member D t v → MemberFields D fs kvs → MemberFields D ((k, t) :: fs) kvs
+  | absent {k : TsKey} {t : Ts} {fs : List (TsKey × Ts)} {kvs : List (Str × JVal)} :
+      JVal.lookup k.name kvs = none → k.optional = true → MemberFields D fs kvs → MemberFields D ((k, t) :: fs) kvs
 /-- `{ [key in K]?: V }`: every key encodes a member of `K`, every value is in `V` -/
-inductive MemberMap (D : Decls) : Ts → Ts → List (Str × Json) → Prop where
+inductive MemberMap (D : Decls) : Ts → Ts → List (Str × JVal) → Prop where
   | nil {k v : Ts} : MemberMap D k v []
-  | consStr {k v : Ts} {key : Str} {val : Json} {kvs : List (Str × Json)} :
+  | consStr {k v : Ts} {key : Str} {val : JVal} {kvs : List (Str × JVal)} :
       -- the key is a string and stands for itself …
       Member D k (.str key) → Member D v val → MemberMap D k v kvs → MemberMap D k v ((key, val) :: kvs)
-  | consInt {k v : Ts} {key : Str} {val : Json} {kvs : List (Str × Json)} (i : Int) :
+  | consInt {k v : Ts} {key : Str} {val : JVal} {kvs : List (Str × JVal)} (i : Int) :
       -- … or for the integer whose decimal text it is
       (toString i).toList = key → Member D k (.int i) → Member D v val → MemberMap D k v kvs →
       MemberMap D k v ((key, val) :: kvs)
